@@ -1,7 +1,7 @@
 """C10 — unknown enum values and union variants survive a round trip unless exhaustive (partial)."""
 from ..facts import ty_adt, tystr, walk_ty, place_local, place_proj, op_place, strip_refs
 from ..cfg import CFG, Tracer, thaw
-from .. import dt, instance, gentypes, minterp, recog
+from .. import dt, instance, gentypes, minterp, recog, inline
 from . import c17
 
 VARIANT = gentypes.VARIANT
@@ -194,9 +194,18 @@ def run(ctx):
         for k in ir_enums + ir_unions:
             ctx.check((cfgname, k) in seen, "R10.1", "conjure_test", f"{cfgname}|{k[1]}|generated", f"IR type {k[1]} has no generated counterpart in the {cfgname} configuration", nontrivial=False)
     # ---------------- R10.3 name class
+    def builds_variant(x):
+        return any(s["r"].get("agg") == "adt" and s["r"]["adt"] == VARIANT for _, _, s in x.stmts())
+    # functions (with their closures: `valid(s).then(|| Variant(..))`) that construct a Variant
+    roots = {}
+    for x in co.bodies:
+        if builds_variant(x) and x.trait != "core::clone::Clone":
+            r_ = co.body(x.d.get("root")) if x.kind == "closure" and x.d.get("root") else x
+            roots[(r_ or x).id] = r_ or x
+    fams = {rid: [r_] + co.closures_of(r_) for rid, r_ in roots.items()}
     pred = [b for b in co.bodies if b.kind == "fn" and tystr(b.local_ty(0)) == "bool" and b.argc == 1 and any(
-        True for x in co.bodies if any(s["r"].get("agg") == "adt" and s["r"]["adt"] == VARIANT for _, _, s in x.stmts()) and any(t["call"].get("id") == b.id for _, t in x.calls()))]
-    vsites = [(x, bb, s) for x in co.bodies for bb, j, s in x.stmts() if s["r"].get("agg") == "adt" and s["r"]["adt"] == VARIANT]
+        any(t["call"].get("id") == b.id for y in fam for _, t in y.calls()) for fam in fams.values())]
+    vsites = []
     for cn in ("conjure_test", "conjure_http", "conjure_serde", "conjure_error"):
         for x in F.crate(cn).bodies:
             for bb, j, s in x.stmts():
@@ -206,20 +215,26 @@ def run(ctx):
         ctx.violation("R10.3", "conjure_object", "anchor|variant-predicate", f"expected one bool predicate guarding Variant construction, found {len(pred)}")
     else:
         p = pred[0]
-        for x, bb, s in vsites:
-            if x.trait == "core::clone::Clone":
-                continue
-            cfg = CFG(x)
-            tr = Tracer(x)
-            ok = False
-            for sbb, allowed, allv in dt.edge_conditions(cfg, bb):
-                atom = dt.switch_atom(x, sbb)
-                if atom[0] == "call" and atom[1]["call"].get("id") == p.id and dt.bool_polarity(allowed) is True:
-                    a1 = {q for q in tr.sources(atom[1]["args"][0]) if q[0] != "const"}
-                    a2 = {q for q in Tracer(x, through_calls=True).sources(s["r"]["ops"][0]) if q[0] not in ("const", "call")}
-                    ok = bool(a1) and a1 <= a2
-            ctx.check(ok, "R10.3", x.loc(s["ln"]), f"{x.id}|variant-guarded", f"{x.id}: Variant constructed without being guarded by the name predicate on the same string", instance=f"{x.id}: Variant(s) guarded by predicate(s)")
-        ctx.floor("R10.3", "Variant construction sites", len(vsites), 2)
+        for rid, r_ in sorted(roots.items()):
+            # decided on the function with its combinators lowered and its closures spliced in
+            x = inline.expand(co, r_, depth=0, lower=True)
+            rest = [y for y in co.closures_of(r_) if y.id not in x.inlined and builds_variant(y)]
+            for x in [x] + rest:
+                cfg = CFG(x)
+                tr = Tracer(x)
+                for bb, j, s in x.stmts():
+                    if not (s["r"].get("agg") == "adt" and s["r"]["adt"] == VARIANT):
+                        continue
+                    vsites.append((x, bb, s))
+                    ok = False
+                    for sbb, allowed, allv in dt.edge_conditions(cfg, bb):
+                        atom = dt.switch_atom(x, sbb)
+                        if atom[0] == "call" and atom[1]["call"].get("id") == p.id and dt.bool_polarity(allowed) is True:
+                            a1 = {q for q in tr.sources(atom[1]["args"][0]) if q[0] != "const"}
+                            a2 = {q for q in Tracer(x, through_calls=True).sources(s["r"]["ops"][0]) if q[0] not in ("const", "call")}
+                            ok = bool(a1) and a1 <= a2
+                    ctx.check(ok, "R10.3", x.loc(s["ln"]), f"{r_.id}|variant-guarded", f"{r_.id}: Variant constructed without being guarded by the name predicate on the same string", instance=f"{r_.id}: Variant(s) guarded by predicate(s)")
+        ctx.floor("R10.3", "Variant construction sites", len(vsites), 1)
         # name class: truth table of the validator over (emptiness test, all()) and the per-unit class by constant propagation
         try:
             an = recog.analyse(F, co, p)
